@@ -320,6 +320,37 @@ remote_read:
 - url: http://r1/read
 `
 
+// settings written with an EMPTY value: each is a setting of its own (an empty regex matches only the empty string, the
+// default matches everything; an empty separator / replacement is not the default ";" / "$1")
+const chBase4 = `scrape_configs:
+- job_name: e
+  metrics_path: /m
+  relabel_configs:
+  - source_labels: [a]
+    regex: ''
+    target_label: b
+  - source_labels: [c, d]
+    separator: ''
+    target_label: e
+  - source_labels: [f]
+    replacement: ''
+    target_label: g
+  metric_relabel_configs:
+  - source_labels: [__name__]
+    regex: ""
+    action: drop
+  static_configs:
+  - targets: ['h:1']
+    labels:
+      empty: ''
+remote_write:
+- url: http://r1/write
+  write_relabel_configs:
+  - source_labels: [x]
+    regex: ''
+    action: keep
+`
+
 type chEdit struct {
 	Base     int
 	Kind     string // format | external | setting
@@ -374,6 +405,13 @@ var chEdits = []chEdit{
 	{2, "setting", "remote_read:\n- url: http://r1/read\n", "", nil, "section-removed-remote-read"},
 	{2, "setting", "remote_write:\n- url: http://r1/write\n", "", nil, "section-removed-remote-write"},
 	{2, "setting", "rule_files:\n- /r/*.yml\n", "", nil, "section-removed-rule-files"},
+	{3, "setting", "    regex: ''\n    target_label: b\n", "    target_label: b\n", []string{"ScrapeConfigs", "RelabelConfigs", "Regex", "original"}, "empty-regex-vs-default"},
+	{3, "setting", "    separator: ''\n", "", []string{"ScrapeConfigs", "RelabelConfigs", "Separator"}, "empty-separator-vs-default"},
+	{3, "setting", "    replacement: ''\n", "", []string{"ScrapeConfigs", "RelabelConfigs", "Replacement"}, "empty-replacement-vs-default"},
+	{3, "setting", "    regex: \"\"\n", "", []string{"ScrapeConfigs", "MetricRelabelConfigs", "Regex", "original"}, "empty-metric-regex-vs-default"},
+	{3, "setting", "    regex: ''\n    action: keep\n", "    action: keep\n", []string{"RemoteWriteConfigs", "WriteRelabelConfigs", "Regex", "original"}, "empty-write-regex-vs-default"},
+	{3, "setting", "      empty: ''\n", "      empty: x\n", []string{"ScrapeConfigs", "ServiceDiscoveryConfigs", "Labels"}, "empty-label-value"},
+	{3, "setting", "    regex: ''\n    target_label: b\n", "    regex: '()'\n    target_label: b\n", []string{"ScrapeConfigs", "RelabelConfigs", "Regex", "original"}, "empty-regex-vs-empty-group"},
 	{0, "external", "replica: a", "replica: b", nil, "ext-value"},
 	{0, "external", "    region: eu\n", "", nil, "ext-removed-one"},
 	{0, "external", "    region: eu\n", "    region: eu\n    zone: z1\n", nil, "ext-added"},
@@ -529,7 +567,7 @@ func ydocTerm(v interface{}) string {
 func cfghashRun(in interface{}) (string, interface{}, map[string]int) {
 	c := in.(*chCase)
 	e := chEdits[c.Edit%len(chEdits)]
-	base := []string{chBase1, chBase2, chBase3}[e.Base]
+	base := []string{chBase1, chBase2, chBase3, chBase4}[e.Base]
 	if strings.Count(base, e.Old) != 1 {
 		panic("cfghash: edit anchor not unique: " + e.Name)
 	}
